@@ -162,7 +162,9 @@ func nonNilIsAny(err error, matches []error) bool {
 			return false
 		}
 		err = more[len(more)-1]
-		more = more[:len(more)-1]
+		// clip the capacity too: a later append must not write into
+		// the slice of the wrapper (up next) it was taken from
+		more = more[: len(more)-1 : len(more)-1]
 	}
 }
 
